@@ -914,82 +914,51 @@ fn rule_min_costs<StorageT: 'static + PrimInt + Unsigned>(
 where
     usize: AsPrimitive<StorageT>,
 {
-    // We use a simple(ish) fixed-point algorithm to determine costs. We maintain two lists
-    // "costs" and "done". An integer costs[i] starts at 0 and monotonically increments
-    // until done[i] is true, at which point costs[i] value is fixed. We also use the done
-    // list as a simple "todo" list: whilst there is at least one false value in done, there is
-    // still work to do.
-    //
-    // On each iteration of the loop, we examine each rule in the todo list to see if
-    // we can get a better idea of its true cost. Some are trivial:
-    //   * A rule with an empty production immediately has a cost of 0.
-    //   * Rules whose productions don't reference any rules (i.e. only contain tokens) can be
-    //     immediately given a cost by calculating the lowest-cost production.
-    // However if a rule A references another rule B, we may need to wait until
-    // we've fully analysed B before we can cost A. This might seem to cause problems with
-    // recursive rules, so we introduce the concept of "incomplete costs" i.e. if a production
-    // references a rule we can work out its minimum possible cost simply by counting
-    // the production's token costs. Since rules can have a mix of complete and
-    // incomplete productions, this is sometimes enough to allow us to assign a final cost to
-    // a rule (if the lowest complete production's cost is lower than or equal to all
-    // the lowest incomplete production's cost). This allows us to make progress, since it
-    // means that we can iteratively improve our knowledge of a token's minimum cost:
-    // eventually we will reach a point where we can determine it definitively.
+    // We use a simple fixed-point algorithm. A rule's cost starts as "unknown" (`None`); the cost
+    // of a production can be calculated once all the rules it references have a known cost (and
+    // is then the sum of its symbols' costs); and a rule's cost is the lowest cost of any of its
+    // productions found so far. Known costs are always the cost of a sentence the rule really
+    // can generate, so they only ever decrease, and thus the loop terminates. Rules which cannot
+    // generate any sentence at all (i.e. which can never "bottom out" in tokens) never become
+    // known: they are given the maximum possible cost.
 
-    let mut costs = vec![0; usize::from(grm.rules_len())];
-    let mut done = vec![false; usize::from(grm.rules_len())];
+    let mut costs: Vec<Option<u32>> = vec![None; usize::from(grm.rules_len())];
     loop {
-        let mut all_done = true;
-        for i in 0..done.len() {
-            if done[i] {
-                continue;
-            }
-            all_done = false;
-            let mut ls_cmplt = None; // lowest completed cost
-            let mut ls_noncmplt = None; // lowest non-completed cost
-
-            // The call to as_() is guaranteed safe because done.len() == grm.rules_len(), and
-            // we guarantee that grm.rules_len() can fit in StorageT.
-            for pidx in grm.rule_to_prods(RIdx(i.as_())).iter() {
-                let mut c: u16 = 0; // production cost
-                let mut cmplt = true;
+        let mut changed = false;
+        for ridx in grm.iter_rules() {
+            for pidx in grm.rule_to_prods(ridx).iter() {
+                let mut c: Option<u32> = Some(0); // production cost
                 for sym in grm.prod(*pidx) {
                     let sc = match *sym {
-                        Symbol::Token(tidx) => u16::from(token_costs[usize::from(tidx)]),
-                        Symbol::Rule(ridx) => {
-                            if !done[usize::from(ridx)] {
-                                cmplt = false;
-                            }
-                            costs[usize::from(ridx)]
-                        }
+                        Symbol::Token(tidx) => Some(u32::from(token_costs[usize::from(tidx)])),
+                        Symbol::Rule(s_ridx) => costs[usize::from(s_ridx)],
                     };
-                    c = c
-                        .checked_add(sc)
-                        .expect("Overflow occurred when calculating rule costs");
+                    c = match (c, sc) {
+                        (Some(c), Some(sc)) => Some(c.saturating_add(sc)),
+                        _ => None,
+                    };
                 }
-                if cmplt && (ls_cmplt.is_none() || Some(c) < ls_cmplt) {
-                    ls_cmplt = Some(c);
-                } else if !cmplt && (ls_noncmplt.is_none() || Some(c) < ls_noncmplt) {
-                    ls_noncmplt = Some(c);
+                if let Some(c) = c
+                    && costs[usize::from(ridx)].is_none_or(|cur| c < cur)
+                {
+                    costs[usize::from(ridx)] = Some(c);
+                    changed = true;
                 }
-            }
-            if let Some(low_cmplt) = ls_cmplt
-                && (ls_noncmplt.is_none() || ls_cmplt < ls_noncmplt)
-            {
-                debug_assert!(low_cmplt >= costs[i]);
-                costs[i] = low_cmplt;
-                done[i] = true;
-            } else if let Some(ls_noncmplt) = ls_noncmplt {
-                debug_assert!(ls_noncmplt >= costs[i]);
-                costs[i] = ls_noncmplt;
             }
         }
-        if all_done {
-            debug_assert!(done.iter().all(|x| *x));
+        if !changed {
             break;
         }
     }
     costs
+        .into_iter()
+        .map(|c| match c {
+            Some(c) => {
+                u16::try_from(c).expect("Overflow occurred when calculating rule costs")
+            }
+            None => u16::MAX,
+        })
+        .collect()
 }
 
 /// Return the cost of the maximal string for each rule in this grammar (u32::max_val()
